@@ -2,6 +2,7 @@
 # Applies each behaviour-preserving change under /verif/benign to /repo and runs
 # the quick checks of the properties it touches: none may raise an alarm.
 cd /verif
+export VERIF_SCRATCH_OUT=/tmp/verif_scratch_out  # runs on a modified tree must not touch /verif/evidence
 run() { f=$1; shift
   cd /repo; [ -z "$(git status --porcelain)" ] || { echo "repo not clean"; exit 2; }
   git apply /verif/benign/$f || { echo "BENIGN: $f does not apply"; return; }
